@@ -377,63 +377,84 @@ Definition tITAL := 16.      (* mid-row italics while the pen colour is not whit
 Definition tCLEAR := 32.     (* paint-on PAC for a row that shows something *)
 Definition tDER := 64.       (* DER with something to delete *)
 Definition tSPACE := 128.    (* paint-on: first pair of characters after a PAC / mid-row code ends in a space, pen not default *)
+Definition tNEGCUR := 512.   (* pop-on / paint-on PAC to the left of what the addressed row already holds (colour PACs: column 1) *)
+Definition tCLAMP := 1024.   (* pop-on / paint-on PAC more than one column to the right of what the addressed row already holds *)
+Definition tROW0 := 2048.    (* roll-up characters after EDM with no PAC / RUx in between *)
+Definition tOVER := 4096.    (* a character is stored over a cell that already shows one *)
 Definition row_blank (m : mem) (r : Z) : bool := forallb is_blank (row_get m r).
 Definition bor (a b : Z) : Z := Z.lor a b.
-(* one word: (flags raised by this word, new value of the `gap` counter = words since the last CR in roll-up mode /
-   PAC in paint-on mode, new value of `fresh` = no character since the last PAC / mid-row code) *)
-Definition word_triggers (s : scr) (w : Z) (gap : Z) (fresh : bool) : Z * Z * bool :=
+Fixpoint first_col (l : list cell) (c : Z) : Z := match l with [] => -1 | x :: l' => if is_blank x then first_col l' (c + 1) else c end.
+Fixpoint last_col (l : list cell) (c : Z) (acc : Z) : Z := match l with [] => acc | x :: l' => last_col l' (c + 1) (if is_blank x then acc else c) end.
+(* bookkeeping of the trigger scan: words since the CR (roll-up) / PAC (paint-on) that opened the paragraph;
+   no character since the last PAC / mid-row code; no caption being displayed since an EDM *)
+Record tstate := mkTst { g_gap : Z ; g_fresh : bool ; g_noact : bool }.
+(* one word: flags raised by it and the new bookkeeping *)
+Definition word_triggers (s : scr) (w : Z) (g : tstate) : Z * tstate :=
   let d := decode w in
   let v := dev_all in
-  if d_cls d =? cPad then (0, gap + 1, fresh)
+  let gap := g_gap g in let fresh := g_fresh g in let noact := g_noact g in
+  let direct := match md s with PopOn => false | _ => true end in
+  if d_cls d =? cPad then (0, mkTst (gap + 1) fresh noact)
   else if d_cls d =? cChars then
     if chan s =? 1 then
-      let direct := match md s with PopOn => false | _ => true end in
       let late := if direct && (0 <? gap) then tLATE else 0 in
       let pen_default := (pcol s =? white) && negb (pita s) && negb (pund s) in
       let sp := match md s with
-                | PaintOn => if fresh && negb pen_default && negb (d_t1 d =? 32) &&
-                                (d_t2 d =? 32) then tSPACE else 0
+                | PaintOn => if fresh && negb pen_default && negb (d_t1 d =? 32) && (d_t2 d =? 32) then tSPACE else 0
                 | _ => 0
                 end in
-      (bor late sp, gap + 1, false)
-    else (0, gap + 1, fresh)
-  else if negb (d_chan d =? 1) then (0, gap + 1, fresh)
+      let r0 := match md s with RollUp _ => if noact then tROW0 else 0 | _ => 0 end in
+      let cell_at c := nth (Z.to_nat c) (row_get (cur_mem s) (crow s)) blank in
+      let ov := if negb (is_blank (cell_at (ccol s))) || (negb (d_t2 d =? -1) && negb (is_blank (cell_at (ccol s + 1)))) then tOVER else 0 in
+      (bor (bor (bor late sp) r0) ov, mkTst (gap + 1) false (if direct then false else noact))
+    else (0, mkTst (gap + 1) fresh noact)
+  else if negb (d_chan d =? 1) then (0, mkTst (gap + 1) fresh noact)
   else if is_second_copy v s w then
-    ((if is_second_copy dev0 s w then 0 else tPADDUP), gap, fresh)
+    ((if is_second_copy dev0 s w then 0 else tPADDUP), g)
   else
     let c := d_cls d in
     let code := d_code d in
-    let direct := match md s with PopOn => false | _ => true end in
     if c =? cPac then
       let base := match md s with RollUp _ => if d_row d =? 15 then 0 else tBASE | _ => 0 end in
       let clr := match md s with PaintOn => if row_blank (disp s) (d_row d) then 0 else tCLEAR | _ => 0 end in
-      (bor base clr, (match md s with PaintOn => 0 | _ => gap + 1 end), true)
+      let row := row_get (cur_mem s) (d_row d) in
+      let col := if d_indent d =? -1 then 0 else d_indent d in
+      let pos := match md s with
+                 | RollUp _ => 0
+                 | _ => if forallb is_blank row then 0
+                        else bor (if col <? first_col row 0 then tNEGCUR else 0) (if last_col row 0 (-1) + 1 <? col then tCLAMP else 0)
+                 end in
+      (bor (bor base clr) pos, mkTst (match md s with PaintOn => 0 | _ => gap + 1 end) true (if direct then false else noact))
     else if c =? cMidRow then
-      ((if d_italic d && negb (pcol s =? white) && negb (pmid s) then tITAL else 0), gap + 1, true)
+      ((if d_italic d && negb (pcol s =? white) && negb (pmid s) then tITAL else 0), mkTst (gap + 1) true noact)
     else if c =? cControl then
-      if code =? kCR then (0, (match md s with RollUp _ => 0 | _ => gap + 1 end), fresh)
+      if code =? kCR then (0, mkTst (match md s with RollUp _ => 0 | _ => gap + 1 end) fresh noact)
       else if code =? kDER then
-        ((if forallb is_blank (skipn (Z.to_nat (ccol s)) (row_get (cur_mem s) (crow s))) then 0 else tDER), gap + 1, fresh)
-      else (0, gap + 1, fresh)
+        ((if forallb is_blank (skipn (Z.to_nat (ccol s)) (row_get (cur_mem s) (crow s))) then 0 else tDER), mkTst (gap + 1) fresh noact)
+      else if code =? kEDM then (0, mkTst (gap + 1) fresh true)
+      else if (code =? kEOC) || ((kRU2 <=? code) && (code <=? kRU4)) then (0, mkTst (gap + 1) fresh false)
+      else (0, mkTst (gap + 1) fresh noact)
     else if (c =? cSpecial) || (c =? cExtended) then
-      ((if direct && (0 <? gap) then tLATE else 0), gap + 1, false)
-    else (0, gap + 1, fresh)
-  .
-Fixpoint line_triggers (s : scr) (ws : list Z) (gap : Z) (fresh : bool) (dups : Z) (prev : vrows) (acc : Z)
-  : scr * Z * bool * vrows * Z :=
+      (bor (bor (if direct && (0 <? gap) then tLATE else 0) (match md s with RollUp _ => if noact then tROW0 else 0 | _ => 0 end))
+           (if negb (is_blank (nth (Z.to_nat (ccol s)) (row_get (cur_mem s) (crow s)) blank)) && (c =? cSpecial) then tOVER else 0),
+       mkTst (gap + 1) false (if direct then false else noact))
+    else (0, mkTst (gap + 1) fresh noact).
+Fixpoint line_triggers (s : scr) (ws : list Z) (g : tstate) (dups : Z) (prev : vrows) (acc : Z)
+  : scr * tstate * vrows * Z :=
   match ws with
-  | [] => (s, gap, fresh, prev, acc)
+  | [] => (s, g, prev, acc)
   | w :: ws' =>
-      let '(fl, gap', fresh') := word_triggers s w gap fresh in
+      let '(fl, g') := word_triggers s w g in
       let d := decode w in
       let second := negb (d_cls d =? cPad) && negb (d_cls d =? cChars) && (d_chan d =? 1) && is_second_copy dev_all s w in
       let s' := feed dev_all s w in
       let now := rows_of_mem (disp s') in
       let changed := negb (vrows_eqb prev now) in
       let fl := if changed && (0 <? dups) then bor fl tDUP else fl in
-      line_triggers s' ws' gap' fresh' (if second then dups + 1 else dups) now (bor acc fl)
+      line_triggers s' ws' g' (if second then dups + 1 else dups) now (bor acc fl)
   end.
 Definition triggers (ls : list sline) : Z :=
-  let '(_, _, _, _, acc) :=
-    fold_left (fun '(s, gap, fresh, prev, acc) l => line_triggers s (sl_words l) (gap + 100) fresh 0 prev acc) ls (scr0, 100, false, [], 0) in
+  let '(_, _, _, acc) :=
+    fold_left (fun '(s, g, prev, acc) l => line_triggers s (sl_words l) (mkTst (g_gap g + 100) (g_fresh g) (g_noact g)) 0 prev acc)
+              ls (scr0, mkTst 100 false true, [], 0) in
   acc.
